@@ -461,6 +461,11 @@ func (hc *hctx) judge(in *readInput, spec *sf.Spec, shape, opts string, sorted b
 		return
 	}
 	diff := diffCounts(gm, gs)
+	if !specified && spec.EmptyListOnly && len(spec.Unspecified) == 1 {
+		c.Violation("C13-"+in.op+"-divergence-empty-filter-list", keyBase+"|diverge-empty-list",
+			fmt.Sprintf("memory and sqlite disagree on %s (empty filter list): %s", filterString(in), diff), hc.witness(in, rm, rs, nil))
+		return
+	}
 	if !specified {
 		// precondition-breaking input: never judged, only recorded
 		c.Count("divergence_on_unspecified_input:"+in.op, 1)
